@@ -31,6 +31,24 @@ use std::time::Duration;
 /// Watchdog: how long the scheduler waits for an agent to report back.
 pub const WATCHDOG: Duration = Duration::from_secs(2);
 
+/// The watchdog in effect: `VERIF_WATCHDOG_MS` (milliseconds) if set, else [`WATCHDOG`]. The check re-runs a
+/// replay whose only finding is a watchdog timeout with a much longer watchdog before it believes the hang
+/// (a descheduled thread on an overloaded machine is not a hang of the library).
+thread_local! {
+    /// Per-driver-thread override of the watchdog (explorers re-run a run that timed out with a long one).
+    pub static WATCHDOG_OVERRIDE: std::cell::Cell<Option<Duration>> = const { std::cell::Cell::new(None) };
+}
+
+pub fn watchdog() -> Duration {
+    if let Some(d) = WATCHDOG_OVERRIDE.with(|c| c.get()) {
+        return d;
+    }
+    static W: std::sync::OnceLock<Duration> = std::sync::OnceLock::new();
+    *W.get_or_init(|| {
+        std::env::var("VERIF_WATCHDOG_MS").ok().and_then(|s| s.parse::<u64>().ok()).map(Duration::from_millis).unwrap_or(WATCHDOG)
+    })
+}
+
 /// Largest key (exclusive) for which the key-hash table is precomputed.
 pub const MAX_KEY: Key = 4096;
 
@@ -289,7 +307,7 @@ impl AgentCtx {
 
     fn wait_report(&self) -> Step {
         let mut s = self.slot.lock().unwrap();
-        let deadline = std::time::Instant::now() + WATCHDOG;
+        let deadline = std::time::Instant::now() + watchdog();
         loop {
             if let Some(r) = s.report.take() {
                 return Step::Report(r);
